@@ -6,6 +6,7 @@ stepSubs over the gateway model) against the real `AsyncMQTTGateway` and `MQTTGa
 Oracle: a direct transcription of the property on the real code's observations.
 """
 import itertools
+import os
 import random
 import shutil
 import tempfile
@@ -588,9 +589,75 @@ def part_handle_subscription(res, rng, driver):
     res.evaluations += len(ops)
 
 
+def started_gateway(flavour, prefix):
+    """The real start() of an MQTT gateway that already knows a node with a child (restored, or presented
+    before), with a subscribe callback that takes its time as a client library does.  Returns the topics
+    requested by the time start() has returned, and what went wrong or None."""
+    import asyncio
+    import time as real_time
+    from mysensors.gateway_mqtt import AsyncMQTTGateway, MQTTGateway
+    subs = []
+
+    def slow_sub(topic, callback, qos):
+        real_time.sleep(0.02)
+        subs.append(topic)
+    cls = MQTTGateway if flavour == "sync" else AsyncMQTTGateway
+    work = tempfile.mkdtemp(prefix="verif-c17-")
+    gw = cls(lambda *a: None, slow_sub, in_prefix=prefix, out_prefix="out", protocol_version="2.2",
+             persistence=True, persistence_file=os.path.join(work, "net.json"))
+    gw.logic("7;255;0;0;17;2.2\n")
+    gw.logic("7;3;0;0;6;t\n")
+    del subs[:]
+    problem = None
+    try:
+        return _started(gw, flavour, subs)
+    finally:
+        shutil.rmtree(work, ignore_errors=True)
+
+
+def _started(gw, flavour, subs):
+    import asyncio
+    problem = None
+    try:
+        if flavour == "sync":
+            gw.start()
+            seen = list(subs)
+            gw.stop()
+        else:
+            loop = asyncio.new_event_loop()
+            try:
+                loop.run_until_complete(gw.start())
+                seen = list(subs)
+                loop.run_until_complete(gw.stop())
+                loop.run_until_complete(loop.shutdown_default_executor())
+            finally:
+                loop.close()
+    except Exception as exc:  # noqa: BLE001
+        seen, problem = list(subs), f"start() / stop() raised {type(exc).__name__}: {exc}"
+    return seen, problem
+
+
+def part_start(res):
+    for flavour in ("sync", "async"):
+        for prefix in ("", "home/gw"):
+            seen, problem = started_gateway(flavour, prefix)
+            res.evaluations += 1
+            res.count("start:" + flavour)
+            need = [f"{prefix}/+/+/0/+/+", f"{prefix}/+/+/3/+/+", f"{prefix}/7/3/1/+/+", f"{prefix}/7/3/2/+/+",
+                    f"{prefix}/7/+/4/+/+"]
+            missing = [t for t in need if t not in seen]
+            if problem or missing:
+                res.oracle_failures.append({
+                    "key": {"kind": "mqtt-start", "flavour": flavour, "what": "raised" if problem else "not-subscribed"},
+                    "replay": {"part": "start", "flavour": flavour, "prefix": prefix},
+                    "what": f"{flavour} MQTT gateway, in_prefix={prefix!r}: " + (problem or
+                            f"start() has returned and {missing} have not been subscribed to (requested so far: {seen})")})
+
+
 def run(tier, seed, driver):
     res = Result()
     rng = random.Random(seed * 7919 + 17)
+    part_start(res)
     np_ = part_recv(res, rng, driver, tier)
     part_send(res, rng, driver, tier)
     part_subs(res, rng, driver, tier)
@@ -634,6 +701,11 @@ def replay(payload):
         q = "N" if r["qos"] is None else r["qos"]
         print("model:", drv.run([f"MQRECV {enc_str(r['prefix'])} {enc_str(r['topic'])} {enc_str(r['payload'])} {q}"]))
         return 0 if got == spec_recv(r["prefix"], r["topic"], r["payload"], r["qos"]) else 1
+    if part == "start":
+        seen, problem = started_gateway(r["flavour"], r["prefix"])
+        print("subscribed when start() returned:", seen, " problem:", problem)
+        need = [f"{r['prefix']}/+/+/0/+/+", f"{r['prefix']}/+/+/3/+/+", f"{r['prefix']}/7/3/1/+/+"]
+        return 1 if problem or any(t not in seen for t in need) else 0
     if part == "send":
         gw, rec = make_real("async", r["prefix"], r["prefix"], pub_raises=r.get("raises", False))
         out = real_send(gw, rec, r["line"])
